@@ -57,8 +57,7 @@ Definition corr_ok (c : case) : bool :=
 
 (** known-defect classes of C04, numbered; 0 = none *)
 Definition class_C04 (braces : bool) (a : chain) : nat :=
-  if cls_double_close a then 1%nat else if cls_pct_at_end braces a then 2%nat
-  else if cls_nodemult_sym a then 3%nat else 0%nat.
+  if cls_double_close a then 1%nat else 0%nat.
 (** 0 = holds (or not judged); 1 = wrong graph, 2 = exception on a valid string; +10*class; 7 = harness error *)
 Definition holds_C04 (fo : float_oracle) (a : chain) (out : outcome) : nat :=
   match denote fo a with
@@ -99,14 +98,8 @@ Definition corr_ok5 (c : case5) : bool :=
 
 Definition class_C05 (braces : bool) (a : chain) : nat :=
   if cls_double_close a then 1%nat
-  else if cls_nodemult_sym a then 2%nat
-  else if cls_bmult_one a then 3%nat
   else if cls_ring_in_unit a then 4%nat
   else if cls_nested_in_unit a then 5%nat
-  else if cls_sibling_before_mult a then 6%nat
-  else if cls_mult_at_end braces a then 7%nat
-  else if cls_pct_at_end braces a then 8%nat
-  else if cls_nodemult_order_in_unit a then 9%nat
   else if cls_stale_recipe a then 10%nat
   else 0%nat.
 (** shorthand against longhand, both as read by the implementation; the numbering must be the
